@@ -149,7 +149,8 @@ fn run_case(ctx: &mut Ctx, idx: u64) {
             }
             let d = json!({"schema": schema, "error": msg.lines().next()});
             let rp = ctx.replay(idx);
-            ctx.rep.violation("subset_schema_rejected", &g.tags, d, rp);
+            let kind = if equal_int_and_float_enum_members(&schema, &f) { "enum_with_equal_int_and_float_members_rejected" } else { "subset_schema_rejected" };
+            ctx.rep.violation(kind, &g.tags, d, rp);
             return;
         }
     };
@@ -262,6 +263,35 @@ fn normalise_numbers(v: &Value) -> Value {
         Value::Array(a) => Value::Array(a.iter().map(normalise_numbers).collect()),
         Value::Object(o) => Value::Object(o.iter().map(|(k, x)| (k.clone(), normalise_numbers(x))).collect()),
         _ => v.clone(),
+    }
+}
+
+/// The refusal has the recorded shape when some `enum` lists the same number once as an integer and once as a
+/// float (`[-92.0, -92]`) AND that two-member enum alone is refused as well.
+fn equal_int_and_float_enum_members(s: &Value, f: &llguidance::ParserFactory) -> bool {
+    match s {
+        Value::Object(o) => {
+            if let Some(e) = o.get("enum").and_then(|e| e.as_array()) {
+                let nums: Vec<&serde_json::Number> = e.iter().filter_map(|x| x.as_number()).collect();
+                for (i, a) in nums.iter().enumerate() {
+                    for b in &nums[i + 1..] {
+                        if a.to_string() != b.to_string() && a.as_f64() == b.as_f64() && (a.is_f64() != b.is_f64()) {
+                            let g = GCase::json("c07_enum2", &json!({"enum": [a, b]}).to_string());
+                            let refused = match matcher(f, &g) {
+                                Ok(m) => m.is_error(),
+                                Err(_) => true,
+                            };
+                            if refused {
+                                return true;
+                            }
+                        }
+                    }
+                }
+            }
+            o.values().any(|v| equal_int_and_float_enum_members(v, f))
+        }
+        Value::Array(a) => a.iter().any(|v| equal_int_and_float_enum_members(v, f)),
+        _ => false,
     }
 }
 
